@@ -117,7 +117,7 @@ def seeds_vnacal(rng, exe):
     return res
 
 
-YAMLS = [b'a: 1\nb: [x, y, {c: d}]\nn: ~\n', b'- 1\n- - 2\n  - 3\n- {k: v}\n', b'"quoted key": |\n  line1\n  line2\nempty: {}\nlist: []\n', b'scalar\n',
+YAMLS = [b'"a\\n]": 1\n', b'? "x\\ny["\n: 2\n', b'ok: 1\n"bad\\tkey[": 2\n', b'a: 1\nb: [x, y, {c: d}]\nn: ~\n', b'- 1\n- - 2\n  - 3\n- {k: v}\n', b'"quoted key": |\n  line1\n  line2\nempty: {}\nlist: []\n', b'scalar\n',
          b'a: &x [1, 2]\nb: *x\n', b'? complex\n: value\n', b'a:\n  b:\n    c:\n      d: deep\n', b'---\nx: 1\n---\ny: 2\n', b'{a: 1, a: 2}\n', b'key: !!binary aGVsbG8=\n',
          b'&a [*a]\n', b'&a {k: *a}\n', b'x: &a [1, [2, *a]]\n', b'a: &x {p: 1}\nb: {q: *x, r: [*x, *x]}\n', b'&a [&b [*a, *b]]\n']
 
@@ -468,6 +468,8 @@ def run(chk):
                     chk.violation('errno-yaml', '%s: rejected with errno %s' % (tag, e), sc)
                 elif after != before:
                     chk.violation('partial-yaml', '%s: a failed import changed the tree: %s -> %s' % (tag, before[:80], after[:80]), sc)
+                elif 'cb=' in imp and imp.split('cb=')[1].split('/')[0] != '1':
+                    chk.violation('report-yaml', '%s: rejected with %s lines of error report (one line, once: vnaerr(3))' % (tag, imp.split('cb=')[1].split('/')[0]), sc)
                 else:
                     chk.count('yaml_rejected_' + e)
                 continue
